@@ -755,7 +755,14 @@ func (c *Ctx) applyContractAt(s *State, fr *Frame, site string, pos token.Pos, f
 	} else {
 		res = c.freshResults(s, "r."+sanitize(calleeName), sig.Results())
 	}
+	// the callee may have allocated: bump the allocation base; callee-fresh objects lie in [preAlloc, newBase)
+	preAlloc := c.bind(s, "allocpre", SInt, c.allocTerm(s))
+	nb := c.freshConst(s, "allocC", SInt)
+	c.assume(s, fmt.Sprintf("(>= %s %s)", nb, preAlloc))
+	s.allocBase = nb
+	s.allocCnt = 0
 	env2 := c.newSpecEnv(s, fr)
+	env2.freshLo, env2.freshHi = preAlloc, nb
 	env2.pkg, env2.pc = env.pkg, env.pc
 	env2.vars = env.vars
 	env2.lets = fc.Lets
